@@ -274,6 +274,15 @@ def run(ctx):
         scripts = []
         for _c in range(k):
             sc = conn_script(r)
+            if r.random() < 0.08:
+                # a very large message (histogram data) followed at once by a small session on the same connection
+                big = gens.frame(1, b"M|1|" + bytes(r.choice(b"0123456789abcdef") for _ in range(70000)), True)
+                sc = [("r", gens.ENQ), ("r", big), ("r", gens.EOT), ("r", gens.ENQ), ("r", gens.frame(1, b"L|1|N", True)),
+                      ("r", gens.EOT)] + sc
+            if r.random() < 0.25:
+                # a peer that violates the protocol (sends ACK / NAK, or EOT outside a transfer): the server refuses it with
+                # an exception out of data_received, which costs that connection - and only that one
+                sc.insert(r.randrange(0, len(sc) + 1), ("r", r.choice([gens.ACK, gens.NAK, gens.EOT + gens.EOT])))
             cut = [i for i, e_ in enumerate(sc) if e_[0] in ("stall", "l")]
             scripts.append(sc[:cut[0] + 1] if cut else sc)
         # strictly increasing global clock; a connection opens just before its first unit; some connections start
@@ -305,6 +314,7 @@ def run(ctx):
         res = servermain.run_server_main(["-m", fmt], sorted(plan, key=lambda x: x[0]), settle=40)
         case = {"format": fmt, "connections": k, "plan": [[t_, c, a[0], a[1].hex() if len(a) > 1 else ""] for t_, c, a in sorted(plan, key=lambda x: x[0])]}
         sf.case(case, nontrivial=True)
+        alone_items = []
         for c in range(k):
             p_t = res["conns"].get(c)
             if p_t is None:
@@ -330,8 +340,8 @@ def run(ctx):
                 if e_[0] == "r":
                     ob = cn.event(("d", e_[2]))
                     exp_replies.append((e_[2], ob["writes"]))
-                    if ob["closes"]:
-                        break
+                    if ob["closes"] or ob["exc"]:
+                        break         # (asyncio closes a connection whose protocol raised out of data_received)
                 else:
                     cn.event(("L",))
                     break
@@ -343,13 +353,38 @@ def run(ctx):
                         "connection %d gets other replies from the server's protocol object than when served alone" % c,
                         "server-factory/replies")
                 break
+            # what the connection put on the shared queue, in its own order
+            mine_alone = [x if isinstance(x, str) else x.decode("latin-1") for x in q.items]
             got_close = tr.close_times[0] if getattr(tr, "close_times", []) else None
+            alone_items.append((c, mine_alone))
             if exp_close is not None and got_close != exp_close:
                 sf.fail(dict(case, connection=c, closed_at=got_close, alone_closed_at=exp_close),
                         "connection %d is closed by the timer at %s, alone at %s" % (c, got_close, exp_close),
                         "server-factory/timer")
                 break
-        # deliveries: nothing to compare on disk here (no -o): the queue is consumed by the server's own consumer
+        # the shared queue received the union of the per-connection deliveries, each connection's in its own order
+        if not sf.oracle_failures or sf.oracle_failures[-1]["case"] is not case:
+            log = [x if isinstance(x, str) else x.decode("latin-1") for x in res["queue_log"]]
+            rest = list(log)
+            ok_ = True
+            for c, items in alone_items:
+                # items of c must appear in `log` as a subsequence, in order
+                pos = 0
+                for it in items:
+                    try:
+                        pos = log.index(it, pos) + 1
+                        rest.remove(it)
+                    except ValueError:
+                        ok_ = False
+                        break
+                if not ok_:
+                    sf.fail(dict(case, connection=c, queued=len(log)),
+                            "the deliveries of connection %d do not reach the shared queue completely and in their own order" % c,
+                            "server-factory/queue-order")
+                    break
+            if ok_ and rest:
+                sf.fail(dict(case, surplus=len(rest)), "the shared queue received items no connection delivers when served alone",
+                        "server-factory/queue-surplus")
     streams.append(sf)
 
     # exhaustive merge orders of short scripts
